@@ -12,3 +12,4 @@ pub(crate) use super::rule_tokinizer::rules::number_rules::*;
 pub(crate) use super::rule_tokinizer::rules::percent_rules::*;
 
 pub(crate) fn missing_token_adder(t: &mut Tokinizer) { t.missing_token_adder() }
+pub(crate) fn run_rule_tokinizer(t: &mut Tokinizer) { super::rule_tokinizer::rule_tokinizer(t) }
